@@ -34,6 +34,20 @@ def main():
     for a in ("DoSpont", "DoInduced"):
         if res.coverage.get(a, (0, 0))[1] == 0:
             raise common.MachineryFailure("vacuous TLC run: %s never taken" % a)
+    # implementation-shaped candidate sets: potential[t] = enabled(t) after set-up and after every incremental update
+    d = tempfile.mkdtemp(prefix="eonverif_c03i_")
+    try:
+        pth = os.path.join(d, "scenarios.json")
+        with open(pth, "w") as fh:
+            json.dump(scn, fh)
+        icfg = tlc.cfg_text({}, spec="ImplSpec", view="IView", invariants=["PotentialExact", "NoBadRemove"],
+                            properties=["RefinesSimpleContagion"]).replace("CONSTANTS\n", "")
+        ires = tlc.run_tlc("SimpleContagionImpl", icfg, workers=16, env={"EON_SCENARIOS": pth}, timeout=3000)
+    finally:
+        shutil.rmtree(d, ignore_errors=True)
+    chk.add_tlc("SimpleContagionImpl: incremental candidate sets (directed and undirected branches) refine SimpleContagion", ires)
+    if ires.violation:
+        chk.violation("spec|SimpleContagionImpl|" + ires.violation[:60], "TLC: " + ires.violation, {})
     sg = {}
     for rec in res.printed("E"):
         _, s, st, st2, ev = rec
